@@ -32,6 +32,7 @@ import (
 
 type c17Fact struct {
 	Site, Expr, Verdict, Why string
+	Identity                 string // is Root the configured value itself? (configured / REFUTED / unknown)
 }
 
 const (
@@ -65,6 +66,65 @@ var c17PureFuncs = map[string]bool{
 type c17Cls struct {
 	pkg   *srcPkg
 	funcs map[string][]*ast.FuncDecl // name (function or method name) -> declarations in the package
+	notes []string                   // remarks on a root that is established (shown in the fact)
+}
+
+func (c *c17Cls) note(s string) {
+	for _, n := range c.notes {
+		if n == s {
+			return
+		}
+	}
+	c.notes = append(c.notes, s)
+}
+
+// functions that return a different string than they are given (an opened / configured path that went
+// through one of them is not the tested / configured one)
+var c17Rewriters = map[string]bool{
+	"os.ExpandEnv": true, "os.Expand": true, "strings.Replace": true, "strings.ReplaceAll": true, "strings.TrimSpace": true,
+	"strings.Trim": true, "strings.TrimLeft": true, "strings.TrimRight": true, "strings.TrimPrefix": true, "strings.TrimSuffix": true,
+	"strings.ToLower": true, "strings.ToUpper": true, "strings.Map": true, "strings.Title": true, "url.PathUnescape": true,
+	"url.QueryUnescape": true, "filepath.EvalSymlinks": true, "filepath.Abs": true, "filepath.Join": true, "path.Join": true,
+	"filepath.Dir": true, "filepath.Base": true, "path.Dir": true, "path.Base": true, "strings.TrimFunc": true, "strings.NewReplacer": true,
+	"filepath.FromSlash": true, "filepath.ToSlash": true, "strings.Fields": true, "strings.Split": true, "strings.SplitN": true,
+}
+
+// fieldWrites classifies every value written to a field named fld anywhere in the package.
+func (c *c17Cls) fieldWrites(fld string, depth int, seen map[string]bool) ([2]string, bool) {
+	if seen["field/"+fld] {
+		return [2]string{c17OK, ""}, true
+	}
+	seen["field/"+fld] = true
+	var vs [][2]string
+	for _, fds := range c.funcs {
+		for _, fd := range fds {
+			if fd.Body == nil {
+				continue
+			}
+			ast.Inspect(fd.Body, func(n ast.Node) bool {
+				as, ok := n.(*ast.AssignStmt)
+				if !ok {
+					return true
+				}
+				for i, l := range as.Lhs {
+					sel, ok := l.(*ast.SelectorExpr)
+					if !ok || sel.Sel.Name != fld {
+						continue
+					}
+					if len(as.Rhs) == len(as.Lhs) {
+						vs = append(vs, c.classify(as.Rhs[i], fd, depth+1, seen))
+					} else {
+						vs = append(vs, [2]string{c17Unknown, "write to the field " + fld + " not followed: " + c17Text(c.pkg.fset, as)})
+					}
+				}
+				return true
+			})
+		}
+	}
+	if len(vs) == 0 {
+		return [2]string{c17OK, ""}, false
+	}
+	return c17Combine(vs...), true
 }
 
 func c17Combine(vs ...[2]string) [2]string {
@@ -176,7 +236,15 @@ func (c *c17Cls) classify(e ast.Expr, fn *ast.FuncDecl, depth int, seen map[stri
 	case *ast.UnaryExpr:
 		return c.classify(x.X, fn, depth, seen)
 	case *ast.SelectorExpr: // field of a configuration object (or a qualified constant / variable)
-		return [2]string{c17OK, ""}
+		if id, ok := x.X.(*ast.Ident); ok && c.isImportName(fn, id.Name) {
+			return [2]string{c17OK, ""} // os.Args, a constant of another package
+		}
+		if x.Sel.Name == "Root" {
+			return [2]string{c17OK, ""} // another locator's root
+		}
+		// what does the package itself store in that field? (nothing: it is set by the embedding program)
+		v, _ := c.fieldWrites(x.Sel.Name, depth, seen)
+		return v
 	case *ast.IndexExpr: // os.Args[0], a configuration map / slice
 		return c.classify(x.X, fn, depth, seen)
 	case *ast.BinaryExpr:
@@ -201,6 +269,10 @@ func (c *c17Cls) classify(e ast.Expr, fn *ast.FuncDecl, depth int, seen map[stri
 				vs = append(vs, c.classify(a, fn, depth+1, seen))
 			}
 			return c17Combine(vs...)
+		}
+		if (name == "flag.String" || strings.HasSuffix(name, ".String")) && len(x.Args) == 3 {
+			// a command line flag: the value given by the user, or the default (second argument)
+			return c.classify(x.Args[1], fn, depth+1, seen)
 		}
 		if c17ErrFuncs[name] || c17TwoValuedNoErr[name] {
 			return [2]string{c17Unknown, "multi-valued call in a single-value context: " + c17Text(fset, x)}
@@ -325,6 +397,10 @@ func (c *c17Cls) classifyLocal(name string, fn *ast.FuncDecl, depth int, seen ma
 		}
 		vs = append(vs, c17Combine(args...))
 		switch {
+		case cname == "os.Getwd" && last != nil && last.Name == "_" && pos != len(lhs)-1:
+			// a failing Getwd yields "": the locator is then rooted at "" = the process working directory, the
+			// very directory the value stands for (relative instead of absolute) - no other directory is reached
+			c.note("default through `" + c17Text(fset, node) + "`: if Getwd fails the root is \"\" which denotes the same working directory")
 		case returnsErr && last != nil && last.Name == "_" && pos != len(lhs)-1:
 			vs = append(vs, [2]string{c17Refuted, "error of the transformation is discarded: " + c17Text(fset, node)})
 		case returnsErr && last != nil && pos != len(lhs)-1:
@@ -369,6 +445,64 @@ func (c *c17Cls) classifyLocal(name string, fn *ast.FuncDecl, depth int, seen ma
 		return [2]string{c17Unknown, "no definition found for " + name}
 	}
 	return c17Combine(vs...)
+}
+
+// identity: is the expression the configured value itself (a pure read), as opposed to something computed from it?
+func (c *c17Cls) identity(e ast.Expr, fn *ast.FuncDecl, depth int) string {
+	if depth > 4 {
+		return c17Unknown
+	}
+	switch x := unparen(e).(type) {
+	case *ast.StarExpr:
+		return c.identity(x.X, fn, depth)
+	case *ast.SelectorExpr:
+		return c17OK
+	case *ast.Ident:
+		if c.isParam(fn, x.Name) {
+			return c17OK
+		}
+		var defs []ast.Expr
+		multi := false
+		ast.Inspect(fn.Body, func(n ast.Node) bool {
+			if as, ok := n.(*ast.AssignStmt); ok {
+				for i, l := range as.Lhs {
+					if id, ok := l.(*ast.Ident); ok && id.Name == x.Name {
+						if len(as.Rhs) == len(as.Lhs) {
+							defs = append(defs, as.Rhs[i])
+						} else if len(as.Rhs) == 1 {
+							defs = append(defs, as.Rhs[0])
+							multi = true
+						}
+					}
+				}
+			}
+			return true
+		})
+		if len(defs) == 0 {
+			return c17Unknown
+		}
+		res := c17OK
+		for _, d := range defs {
+			v := c.identity(d, fn, depth+1)
+			if v == c17Refuted {
+				return v
+			}
+			if v != c17OK || multi && v == c17OK {
+				res = c17Unknown
+			}
+		}
+		return res
+	case *ast.CallExpr:
+		name := c17CallName(x.Fun)
+		if c17Rewriters[name] || c17ErrFuncs[name] {
+			return c17Refuted
+		}
+		if name == "string" && len(x.Args) == 1 {
+			return c.identity(x.Args[0], fn, depth)
+		}
+		return c17Unknown
+	}
+	return c17Unknown
 }
 
 func c17ExtractFacts(root string) ([]c17Fact, error) {
@@ -419,15 +553,19 @@ func c17ExtractFacts(root string) ([]c17Fact, error) {
 					}
 					site := dir + ":" + funcName(p.name, fd)
 					if rootExpr == nil {
-						facts = append(facts, c17Fact{site, `""`, c17OK, "no Root given: the empty string"})
+						facts = append(facts, c17Fact{site, `""`, c17OK, "no Root given: the empty string", c17OK})
 						return true
 					}
+					c.notes = nil
 					v := c.classify(rootExpr, fd, 0, map[string]bool{})
+					if v[0] == c17OK && len(c.notes) > 0 {
+						v[1] = strings.Join(c.notes, "; ")
+					}
 					if _, plain := unparen(rootExpr).(*ast.SelectorExpr); !plain && v[0] == c17OK && strings.Contains(c17Text(p.fset, rootExpr), ".Root") {
 						// a locator derived from another locator's root plus further path material
 						v = [2]string{c17Unknown, "derived from another locator's Root; nothing visible checks the result against it"}
 					}
-					facts = append(facts, c17Fact{site, c17Text(p.fset, rootExpr), v[0], v[1]})
+					facts = append(facts, c17Fact{site, c17Text(p.fset, rootExpr), v[0], v[1], c.identity(rootExpr, fd, 0)})
 					return true
 				})
 			}
@@ -437,7 +575,7 @@ func c17ExtractFacts(root string) ([]c17Fact, error) {
 	return facts, nil
 }
 
-// c17FactsNeedAmplification: some root is not positively established (or the extractor failed).
+// c17FactsNeedAmplification: some fact is not positively established (or an extractor failed).
 func c17FactsNeedAmplification() bool {
 	facts, err := c17ExtractFacts(repoDir())
 	if err != nil || len(facts) == 0 {
@@ -445,6 +583,27 @@ func c17FactsNeedAmplification() bool {
 	}
 	for _, f := range facts {
 		if f.Verdict != c17OK {
+			return true
+		}
+		if strings.HasSuffix(f.Site, "CreateRuntimeProvider") && f.Identity != c17OK {
+			return true
+		}
+	}
+	of, err := c17OpenFacts(repoDir())
+	if err != nil {
+		return true
+	}
+	for _, f := range of {
+		if f.Verdict != c17OK {
+			return true
+		}
+	}
+	imf, err := c17ImportFacts(repoDir())
+	if err != nil {
+		return true
+	}
+	for _, f := range imf {
+		if f.RecvVerdict != c17OK || f.ArgVerdict != c17OK {
 			return true
 		}
 	}
@@ -461,25 +620,75 @@ func c17ToolMain(args []string) int {
 		fmt.Fprintln(os.Stderr, "extract:", err)
 		return 1
 	}
+	openFacts, err := c17OpenFacts(repoDir())
+	if err != nil {
+		fmt.Fprintln(os.Stderr, "extract:", err)
+		return 1
+	}
+	impFacts, err := c17ImportFacts(repoDir())
+	if err != nil {
+		fmt.Fprintln(os.Stderr, "extract:", err)
+		return 1
+	}
+	q := sfLeanStr
 	var b strings.Builder
-	b.WriteString("/-! GENERATED on every run by `harness C17 -tool extract` (go/ast over cli, cli/tool, interpreter, util\nof the tree under test, outside tests) — do not edit.\nWhere the `Root` of every `util.FileImportLocator` composite literal comes from. -/\nnamespace Ecal.Gen.C17\n\n")
-	b.WriteString("/-- (site, Root expression, verdict, reason) — verdict `configured` / `REFUTED` / `unknown` -/\ndef locatorRoots : List (String × String × String × String) := [")
+	b.WriteString("import Ecal.Model.Path\n/-! GENERATED on every run by `harness C17 -tool extract` (go/ast over cli, cli/tool, interpreter, util\nof the tree under test, outside tests) — do not edit. Verdicts: `configured` (established) / `REFUTED` / `unknown`. -/\nnamespace Ecal.Gen.C17\n\n")
+	b.WriteString("/-- where the `Root` of every `util.FileImportLocator` composite literal comes from:\n    (site, Root expression, verdict, reason, is it the configured value itself) -/\ndef locatorRoots : List (String × String × String × String × String) := [")
 	for i, f := range facts {
 		if i > 0 {
 			b.WriteString(",")
 		}
-		fmt.Fprintf(&b, "\n  (%s, %s, %s, %s)", sfLeanStr(f.Site), sfLeanStr(f.Expr), sfLeanStr(f.Verdict), sfLeanStr(f.Why))
+		fmt.Fprintf(&b, "\n  (%s, %s, %s, %s, %s)", q(f.Site), q(f.Expr), q(f.Verdict), q(f.Why), q(f.Identity))
 	}
 	b.WriteString("\n]\n\n")
-	b.WriteString("/-- roots positively refuted: the value passes through a transformation whose error is discarded -/\ndef refuted : List String :=\n  (locatorRoots.filter fun f => f.2.2.1 == \"REFUTED\").map fun f => f.1 ++ \": \" ++ f.2.2.2\n\n")
-	b.WriteString("/-- roots the extractor could not follow (not a violation; the T / J cases are amplified) -/\ndef notEstablished : List String :=\n  (locatorRoots.filter fun f => f.2.2.1 == \"unknown\").map fun f => f.1 ++ \": \" ++ f.2.2.2\n\n")
+	b.WriteString("/-- roots positively refuted: the value passes through a transformation whose discarded error moves the root to another directory -/\ndef refuted : List String :=\n  (locatorRoots.filter fun f => f.2.2.1 == \"REFUTED\").map fun f => f.1 ++ \": \" ++ f.2.2.2.1\n\n")
+	b.WriteString("/-- roots the extractor could not follow (not a violation; the T / U / J cases are amplified) -/\ndef notEstablished : List String :=\n  (locatorRoots.filter fun f => f.2.2.1 == \"unknown\").map fun f => f.1 ++ \": \" ++ f.2.2.2.1\n\n")
+	toolIdent := true
+	for _, f := range facts {
+		if strings.HasSuffix(f.Site, "CreateRuntimeProvider") && f.Identity == c17Refuted {
+			toolIdent = false
+		}
+	}
+	fmt.Fprintf(&b, "/-- `CLIInterpreter.CreateRuntimeProvider`: the locator's Root is the configured `Dir` value itself (not refuted) -/\ndef toolRootIsDir : Bool := %v\n\n", toolIdent)
+	b.WriteString("/-- every call reachable from `FileImportLocator.Resolve` that touches the file system (or cannot be classified):\n    (site, call, verdict, reason). `configured` = after the containment test, guarded by its result, argument = the tested value. -/\ndef resolveCalls : List (String × String × String × String) := [")
+	for i, f := range openFacts {
+		if i > 0 {
+			b.WriteString(",")
+		}
+		fmt.Fprintf(&b, "\n  (%s, %s, %s, %s)", q(f.Site), q(f.Call), q(f.Verdict), q(f.Why))
+	}
+	b.WriteString("\n]\n\n")
+	b.WriteString("def openRefuted : List String :=\n  (resolveCalls.filter fun f => f.2.2.1 == \"REFUTED\").map fun f => f.1 ++ \": \" ++ f.2.1 ++ \" — \" ++ f.2.2.2\n\n")
+	b.WriteString("def openNotEstablished : List String :=\n  (resolveCalls.filter fun f => f.2.2.1 == \"unknown\").map fun f => f.1 ++ \": \" ++ f.2.1 ++ \" — \" ++ f.2.2.2\n\n")
+	b.WriteString("/-- the `Resolve` calls reachable from `importRuntime.Eval`: (site, receiver, verdict, reason, argument, verdict, reason) -/\ndef importResolveCalls : List (String × String × String × String × String × String × String) := [")
+	recvOK, argOK := true, true
+	for i, f := range impFacts {
+		if i > 0 {
+			b.WriteString(",")
+		}
+		fmt.Fprintf(&b, "\n  (%s, %s, %s, %s, %s, %s, %s)", q(f.Site), q(f.Receiver), q(f.RecvVerdict), q(f.RecvWhy), q(f.Arg), q(f.ArgVerdict), q(f.ArgWhy))
+		if f.RecvVerdict == c17Refuted {
+			recvOK = false
+		}
+		if f.ArgVerdict == c17Refuted {
+			argOK = false
+		}
+	}
+	b.WriteString("\n]\n\n")
+	fmt.Fprintf(&b, "/-- the facts the import model is instantiated with (`true` = not refuted) -/\ndef importFacts : Ecal.Path.ImportFacts :=\n  { receiverIsConfiguredLocator := %v, argumentIsPathValue := %v }\n\n", recvOK, argOK)
 	b.WriteString("end Ecal.Gen.C17\n")
 	if err := os.WriteFile(args[1], []byte(b.String()), 0644); err != nil {
 		fmt.Fprintln(os.Stderr, err)
 		return 1
 	}
 	for _, f := range facts {
-		fmt.Printf("%s\t%s\t%s\t%s\n", f.Site, f.Expr, f.Verdict, f.Why)
+		fmt.Printf("root\t%s\t%s\t%s\t%s; itself=%s\n", f.Site, f.Expr, f.Verdict, f.Why, f.Identity)
+	}
+	for _, f := range openFacts {
+		fmt.Printf("open\t%s\t%s\t%s\t%s\n", f.Site, f.Call, f.Verdict, f.Why)
+	}
+	for _, f := range impFacts {
+		fmt.Printf("import\t%s\t%s.Resolve(%s)\t%s/%s\t%s %s\n", f.Site, f.Receiver, f.Arg, f.RecvVerdict, f.ArgVerdict, f.RecvWhy, f.ArgWhy)
 	}
 	return 0
 }
